@@ -538,6 +538,26 @@ def call_builtin(ex, name, e, st, awaited):
         r = st.alloc('new_' + name, name)
         outs = call_with_args(ex, init, V('ref', r), e.args, kwargs, st, False, e)
         return [(s2, v if isinstance(v, Raised) else V('ref', r)) for s2, v in outs]
+    if name == 'list' and len(e.args) == 1:
+        # list(iterable): a fresh list; for an arbitrary iterable its contents are the ghost `aslist` of the
+        # argument (whatever iterating it yields), which is what the spec function `leaves` also refers to
+        for st2, vals in ex.ev_many(e.args, st):
+            if isinstance(vals, Raised):
+                res.append((st2, vals))
+                continue
+            v = vals[0]
+            r = st2.alloc_list()
+            if v.kind == 'list':
+                st2.heap['$llen'] = z3.Store(st2.H('$llen'), r, z3.IntVal(0))
+                ex.list_extend(r, v, st2)
+            elif v.kind == 'ref':
+                st2.heap['$lat'] = z3.Store(st2.H('$lat'), r, L.aslist_items(v.t))
+                st2.heap['$llen'] = z3.Store(st2.H('$llen'), r, L.aslist_len(v.t))
+                st2.assume(L.aslist_len(v.t) >= 0)
+            else:
+                raise Unsupported('list() of a %s value' % v.kind)
+            res.append((st2, vlist(r)))
+        return res
     if name in ('str', 'format'):
         for st2, vals in ex.ev_many(e.args, st):
             res.append((st2, vals if isinstance(vals, Raised) else vstr(L.fresh('str', L.Str))))
